@@ -108,6 +108,20 @@ func checkIndex(c *enum.Ctx, k kase) {
 			byWord[w] = append(byWord[w], p)
 		}
 	}
+	// the raw frequency table before Build, read before anything else has looked at the index
+	if nw := 1 << (2 * uint(k.K)); nw <= 4096 {
+		fg := ki.Finger()
+		for w := 0; w < nw; w++ {
+			if got := ki.FingerAt(w); got != len(byWord[w]) {
+				fail("FingerAt/before-build", "FingerAt(%s) = %d straight after New, the word occurs %d times in %q", wordString(w, k.K, k.RNA), got, len(byWord[w]), k.Seq)
+				break
+			}
+			if w < len(fg) && int(fg[w]) != len(byWord[w]) {
+				fail("Finger/before-build", "Finger()[%s] = %d straight after New, the word occurs %d times in %q", wordString(w, k.K, k.RNA), fg[w], len(byWord[w]), k.Seq)
+				break
+			}
+		}
+	}
 	// frequencies before Build
 	freq, ok := ki.KmerFrequencies()
 	if !ok {
@@ -225,6 +239,29 @@ func checkIndex(c *enum.Ctx, k kase) {
 	}
 	if ok, found := ki.Check(); !ok || found != len(win) {
 		fail("Check", "Check() = (%v,%d), %d valid windows in %q", ok, found, len(win), k.Seq)
+	}
+	// what the index hands out is the caller's: writing on it (in place, and by appending) must not
+	// change what the index reports afterwards
+	for w := range byWord {
+		if ps, err := ki.KmerPositions(kmerindex.Kmer(w)); err == nil {
+			for i := range ps {
+				ps[i] = -7
+			}
+			_ = append(ps, -9)
+		}
+	}
+	for _, m := range idx {
+		for i := range m {
+			m[i] = -7
+		}
+		_ = append(m, -9)
+	}
+	for w, ps := range byWord {
+		got, err := ki.KmerPositions(kmerindex.Kmer(w))
+		if err != nil || fmt.Sprint(sorted(got)) != fmt.Sprint(ps) {
+			fail("KmerPositions/shares-the-index", "after the caller wrote on earlier results, positions of %s in %q are %v (err %v), it occurs at %v", wordString(w, k.K, k.RNA), k.Seq, got, err, ps)
+			break
+		}
 	}
 }
 
